@@ -1147,11 +1147,9 @@ class UGrid(DimensionConvention[UGridKind, UGridIndex]):
 
     @cached_property
     def bounds(self) -> Bounds:
-        topology = self.topology
-        min_x = numpy.nanmin(topology.node_x)
-        max_x = numpy.nanmax(topology.node_x)
-        min_y = numpy.nanmin(topology.node_y)
-        max_y = numpy.nanmax(topology.node_y)
+        # The bounding box of the faces. This is much cheaper than merging all the faces.
+        # Nodes that no face uses, or that only belong to faces without a polygon, do not count.
+        min_x, min_y, max_x, max_y = shapely.total_bounds(self.polygons[self.mask])
         return (min_x, min_y, max_x, max_y)
 
     def make_clip_mask(
